@@ -100,7 +100,17 @@ def native_replay(module, func, args, env):
     m = re.search(r"RESULT (.*)", p.stdout)
     if m:
         return m.group(1).strip(), p.stdout[-300:]
-    return "EXC", (p.stderr or p.stdout)[-600:]
+    err = (p.stderr or p.stdout)
+    # an exception caused by a limitation of the pure-Python stand-in environment (an array operation it does not model) says nothing about
+    # the code under test: classified separately, reported as a harness error, never as a violation
+    tail = err[-1500:]
+    last = tail.strip().splitlines()[-1] if tail.strip() else ""
+    fake_names = ("'Cell'", "'TimeSeq'", "'IntList'", "'BoolList'", "'KeyT'", "'KeyVec'", "'KeyList'", "'InfoCell'", "SimpleNamespace", "'FakeModel'", "'_FakeJax'", "'_S'")
+    innermost_files = re.findall(r'File "([^"]+)", line', tail)
+    in_fake = bool(innermost_files) and innermost_files[-1].replace(os.sep, "/").endswith("vf/ch/fakeenv.py")
+    if in_fake or (last.startswith(("TypeError", "AttributeError", "NotImplementedError")) and any(n in last for n in fake_names)):
+        return "FAKEENV", err[-600:]
+    return "EXC", err[-600:]
 
 
 def run_conditions(chk, conds, workers=None):
@@ -147,6 +157,10 @@ def run_conditions(chk, conds, workers=None):
                 is_exc = not detail["message"].strip().lower().startswith("false")
                 # the native run decides: the harness function returning False on these inputs is a violation of the
                 # property on the real code, whatever CrossHair's own message was
+                if val == "FAKEENV":
+                    chk.record(Result(ob, "unknown", secs, info, detail="the stand-in environment does not model an operation the code under test uses on this path "
+                                      "(harness limitation, not a finding): " + out.strip()[-260:]))
+                    continue
                 reproduced = (val == "False") or (is_exc and val == "EXC")
                 rp = dict(reproduced=reproduced, inputs=dict(call=f"{detail['func']}({detail['args']})"), observed=dict(native_result=val),
                           note=(detail["message"] + " | " + out.strip()[-300:]) if reproduced else "counterexample did not reproduce natively: " + out[-200:])
